@@ -179,6 +179,37 @@ C10_After(r, stopped) ==     \* after any input: still in session, or closed cle
 (***************************** C02: always recovering **********************)
 C02_Pending(r, stopped) == (~stopped /\ r.cls # "cfg") => (r.live >= 1 \/ r.pend > 0)
 
+(***************************** C16: REST control surface ********************)
+\* r.rq describes the request the harness made: cls = class of the rule ("read": state/statistic/version,
+\* "ctl": manual-start/-stop, "send": send/update, send/route-refresh, send/bin_update, "gated": json_to_bin, adj-rib-in/-out,
+\* "unknown": a rule of the URL map the specification does not know), valid = well-formed body for that rule,
+\* etype = message type a successful send must write, wdn/nln/ats = what the requested UPDATE contains.
+NoEffect(r) == r.st = r.pst /\ Quiet(r) /\ r.statsame
+C16_Auth(r) ==       \* no valid credentials: 401 (or 405 for a method the rule does not have), nothing revealed, nothing changed
+   (r.cls = "REST" /\ r.rest.cred # "good") => (r.rest.status \in {401, 405} /\ r.rest.ok = 0 /\ ~r.rest.hasbin /\ NoEffect(r))
+C16_Method(r) ==     \* a method the rule does not offer changes nothing
+   (r.cls = "REST" /\ r.rest.status = 405) => NoEffect(r)
+C16_Gate(r) ==       \* sending (and the other Established-only endpoints) does nothing and reports failure unless Established
+   (r.cls = "REST" /\ r.rest.cred = "good" /\ r.rq.cls \in {"send", "gated"} /\ r.rest.status # 405 /\ r.pst # "ESTABLISHED") =>
+      (r.rest.ok = 2 /\ ~r.rest.hasbin /\ NoEffect(r))
+C16_Read(r) ==       \* reading endpoints never change anything
+   (r.cls = "REST" /\ r.rq.cls \in {"read", "gated"}) => (r.st = r.pst /\ Quiet(r))
+C16_Send(r) ==       \* a send reported successful wrote exactly the requested message, and only it, to the tracked connection
+   (r.cls = "REST" /\ r.rq.cls = "send" /\ r.rest.ok = 1) =>
+      /\ r.pst = "ESTABLISHED" /\ r.st = "ESTABLISHED" /\ NoClose(r) /\ r.att = 0
+      /\ Len(r.out) = 1 /\ r.out[1].c = r.ptr /\ r.out[1].type = r.rq.etype
+      /\ (r.rq.etype = "UPDATE" /\ r.rq.valid) =>
+            /\ r.out[1].wdn = r.rq.wdn /\ r.out[1].nln = r.rq.nln
+            \* the documented default: LOCAL_PREF 100 on iBGP sessions when the request has attributes but no LOCAL_PREF
+            /\ LET addlp == r.rq.ibgp /\ r.rest.rule = "send/update" /\ r.rq.ats # <<>> /\ ~InSeq(5, r.rq.ats) IN
+               /\ (addlp => (r.out[1].lp = 100 /\ Len(r.out[1].ats) = Len(r.rq.ats) + 1))
+               /\ (~addlp => Len(r.out[1].ats) = Len(r.rq.ats))
+               /\ \A k \in 1..Len(r.rq.ats) : InSeq(r.rq.ats[k], r.out[1].ats)
+C16_Fail(r) ==       \* a send reported as failed wrote nothing
+   (r.cls = "REST" /\ r.rq.cls = "send" /\ r.rest.ok # 1) => (r.out = <<>> /\ r.st = r.pst)
+C16_ValidSend(r) ==  \* a well-formed send request in Established is carried out
+   (r.cls = "REST" /\ r.rq.cls = "send" /\ r.rq.valid /\ r.rest.cred = "good" /\ r.rest.status # 405 /\ r.pst = "ESTABLISHED") => r.rest.ok = 1
+
 (***************************** C05: OPEN contents **************************)
 \* acceptance policy: acc = 1: the injected OPEN must be accepted (version 4, AS = remote AS - the 4-octet value when that
 \* capability is present -, hold time not 1 or 2); acc = 2: it must be rejected with OPEN Message Error subcode esub
@@ -258,4 +289,11 @@ Check(mon, r) ==
    /\ Chk("C10", r, "C10.after", C10_After(r, stp \/ r.cls = "STOP"), <<>>)
    /\ Chk("C02", r, "C02.pending", C02_Pending(r, stp \/ r.cls = "STOP"), <<>>)
    /\ Chk("C05", r, "C05.open", C05_Open(mon, r), <<>>)
+   /\ Chk("C16", r, "C16.auth", C16_Auth(r), <<r.rest.rule, r.rest.method, r.rest.cred, r.rest.status>>)
+   /\ Chk("C16", r, "C16.method", C16_Method(r), <<r.rest.rule, r.rest.method>>)
+   /\ Chk("C16", r, "C16.gate", C16_Gate(r), <<r.rest.rule, r.rest.method, r.rest.status, r.rest.ok>>)
+   /\ Chk("C16", r, "C16.read", C16_Read(r), <<r.rest.rule, r.rest.method>>)
+   /\ Chk("C16", r, "C16.send", C16_Send(r), <<r.rest.rule, OutTypes(r)>>)
+   /\ Chk("C16", r, "C16.fail", C16_Fail(r), <<r.rest.rule, OutTypes(r)>>)
+   /\ Chk("C16", r, "C16.validsend", C16_ValidSend(r), <<r.rest.rule, r.rest.status, r.rest.ok>>)
 =============================================================================
